@@ -182,6 +182,9 @@ class Machine:
 def _one_run(args: tuple[Any, int, int, str]) -> dict:
     """Executed in the forked run child: build scenario from seed and execute it."""
     machine, index, seed, tier = args
+    # the library's own use of the random module (names of added conditions, filter prefixes) is part of
+    # the run: it is decided by the run seed like everything else
+    random.seed(seed)
     streams = Streams(seed)
     scenario = machine.generate(streams, tier)
     scenario["property"] = machine.PROPERTY
@@ -299,6 +302,7 @@ def batch_digest(recs: list[dict], key: str = "digest") -> str:
 
 def _exec_scenario(args: tuple[Any, dict]) -> dict:
     machine, scenario = args
+    random.seed(scenario.get("seed", 0))
     return machine.execute(copy.deepcopy(scenario))
 
 
